@@ -144,3 +144,57 @@ type c06Sink struct{ n int }
 
 func (s *c06Sink) Write(p []byte) (int, error) { s.n += len(p); return len(p), nil }
 func (s *c06Sink) Close() error                { return nil }
+
+// Harness_C06_torn_recursive_remove: the last call removed a directory with two entries (one DELETE record each, in
+// one archive) and the tape is cut behind the k-th of those records, at the record boundary or at any byte inside the
+// next record's header blocks. A rebuild is silent, the entries whose DELETE record is complete are gone, and every
+// other entry is exactly as it was before the call.
+func Harness_C06_torn_recursive_remove() {
+	vm.SetUnwind(16)
+	v := verifNewFS(config.PipeConfig{}, false, true)
+	v.rootOnly()
+	v.Env.AddEntry("/d", tar.TypeDir, 0, false, "")
+	v.Env.AddEntry("/d/g", tar.TypeReg, 3, false, "")
+	v.Env.AddEntry("/d/h", tar.TypeReg, 0, false, "")
+	v.Env.AddEntry("/keep", tar.TypeReg, 2, false, "")
+	t := v.Env.Tape
+	before := len(t.Segs)
+	rerr := v.FS.RemoveAll("/d")
+	vm.Assert("C06.removeall_ok", rerr == nil)
+	if rerr != nil {
+		return
+	}
+	var dels []*vm.Seg
+	for _, g := range t.Segs[before:] {
+		if g.Kind == vm.SegMember {
+			dels = append(dels, g)
+		}
+	}
+	vm.Assert("C06.removeall_wrote_one_record_per_entry", len(dels) == 3)
+	if len(dels) != 3 {
+		return
+	}
+	k := vm.Choice("completeRecords", 3) // 0, 1 or 2 of the three DELETE records survive completely
+	cut := dels[k].Start + vm.Int64("cut", 0, 512*3-1)
+	t.CutAt(cut)
+	vm.UnwindIsViolation("C06.rebuild_terminates")
+	idx, err := c01Rebuild(v)
+	vm.UnwindIsViolation("")
+	vm.Assert("C06.cut_between_delete_records_is_silent", err == nil)
+	rows := idx.VerifRows()
+	for i, g := range dels {
+		r := c06Row(rows, g.Hdr.Name)
+		vm.Assert("C06.entry_of_torn_removeall_has_a_row", r != nil)
+		if r == nil {
+			continue
+		}
+		if i < k {
+			vm.Assert("C06.complete_delete_record_applied", r.Deleted == 1)
+		} else {
+			vm.Assert("C06.entry_behind_the_cut_still_there", r.Deleted != 1)
+		}
+	}
+	keep := c06Row(rows, "/keep")
+	vm.Assert("C06.unrelated_entry_untouched", keep != nil && keep.Deleted != 1 && keep.Size == 2)
+	vm.Cover("C06.some_delete_records_complete", k > 0)
+}
